@@ -512,8 +512,29 @@ def toy_model(real, n_par, n_out):
     return Toy
 
 
-def make_ll(real, n_par, errs, n_times=3, label=None):
-    Toy = toy_model(real, n_par, len(errs))
+def reduced_toy(real, n_par, n_out, released=False):
+    """a user-supplied ReducedMechanisticModel in which nothing is (any longer) fixed"""
+    r = real.ReducedMechanisticModel(toy_model(real, n_par, n_out)())
+    if released:
+        nm = r.parameters()[0]
+        r.fix_parameters({nm: 0.7})
+        r.fix_parameters({nm: None})
+    return r
+
+
+def mech_inv(mm):
+    """count-names of a mechanistic sub-model (queried repeatedly by the composite invariants)"""
+    try:
+        names, n = list(mm.parameters()), mm.n_parameters()
+    except Exception as ex:
+        return 'count-names', 'the mechanistic sub-model\'s parameters() / n_parameters() raise %r' % (ex,)
+    if len(names) != n or len(set(names)) != n:
+        return 'count-names', 'the mechanistic sub-model reports n_parameters() = %s and the %d names %s' % (n, len(names), names)
+    return None
+
+
+def make_ll(real, n_par, errs, n_times=3, label=None, mech=None):
+    Toy = toy_model(real, n_par, len(errs)) if mech is None else (lambda: mech)
     times = [np.arange(1, n_times + 1, dtype=float) + 0.5 * r for r in range(len(errs))]
     obs = [3.0 + 0.2 * np.arange(n_times) + r for r in range(len(errs))]
     ll = real.LogLikelihood(Toy(), [getattr(real, e)() for e in errs], obs, times)
@@ -547,6 +568,9 @@ def likelihoods(rec):
         if len(set(names)) != n:
             return 'unique', 'names are not distinct: %s' % (names,)
         sub = ll.get_submodels()
+        r = mech_inv(sub['Mechanistic model'])
+        if r:
+            return r
         full = list(sub['Mechanistic model'].parameters())
         for em in sub['Error models']:
             full += list(em.get_parameter_names())
@@ -568,6 +592,11 @@ def likelihoods(rec):
         for errs in [('GaussianErrorModel',), ('ConstantAndMultiplicativeGaussianErrorModel',), ('GaussianErrorModel', 'LogNormalErrorModel'), ('ConstantAndMultiplicativeGaussianErrorModel', 'MultiplicativeGaussianErrorModel'),
                      ('GaussianErrorModel', 'ConstantAndMultiplicativeGaussianErrorModel')]:
             configs.append(('LogLikelihood(toy %d par, %s)' % (n_par, [e[:8] for e in errs]), lambda n_par=n_par, errs=errs: make_ll(real, n_par, errs)))
+
+    for released in (False, True):
+        for errs in [('GaussianErrorModel',), ('GaussianErrorModel', 'ConstantAndMultiplicativeGaussianErrorModel')]:
+            configs.append(('LogLikelihood(ReducedMechanisticModel(toy 2 par)%s, %s)' % (' after fixing and releasing a parameter' if released else ' with nothing fixed', [e[:8] for e in errs]),
+                            lambda released=released, errs=errs: make_ll(real, 2, errs, mech=reduced_toy(real, 2, len(errs), released))))
 
     def shared_error_model(n_par):
         Toy = toy_model(real, n_par, 2)
@@ -782,8 +811,8 @@ def filter_posteriors(rec):
 def predictive(rec):
     import chi as real
 
-    def build(n_par, errs, pop_comp):
-        Toy = toy_model(real, n_par, len(errs))
+    def build(n_par, errs, pop_comp, reduced=None):
+        Toy = toy_model(real, n_par, len(errs)) if reduced is None else (lambda: reduced_toy(real, n_par, len(errs), reduced == 'released'))
         pm = real.PredictiveModel(Toy(), [getattr(real, e)() for e in errs])
         if pop_comp is None:
             pm._c17_ncov = 0
@@ -803,6 +832,9 @@ def predictive(rec):
             return 'count-names', 'n_parameters() = %s, %d names %s' % (n, len(names), list(names))
         if len(set(names)) != n:
             return 'unique', 'names are not distinct: %s' % (list(names),)
+        r = mech_inv(pm._mechanistic_model if type(pm) is real.PredictiveModel else pm._predictive_model._mechanistic_model)
+        if r:
+            return r
         if type(pm) is real.PredictiveModel:
             cur = list(pm._mechanistic_model.parameters())
             for em in pm._error_models:
@@ -824,6 +856,9 @@ def predictive(rec):
         configs.append(('PredictiveModel(toy %d par, %s)' % (n_par, [e[:8] for e in errs]), lambda n_par=n_par, errs=errs: build(n_par, errs, None)))
     for comp in [('P', 'G', 'L'), ('G', 'P2'), ('H', 'Gn', 'P'), ('C', 'P', 'P'), ('G2', 'H'), ('P', 'P', 'P'), ('H2', 'G')]:
         configs.append(('PopulationPredictiveModel(toy 2 par + Gaussian error, %s)' % '+'.join(comp), lambda comp=comp: build(2, ('GaussianErrorModel',), comp)))
+    for red in ('nothing fixed', 'released'):
+        configs.append(('PredictiveModel(ReducedMechanisticModel(toy 2 par) %s, Gaussian error)' % red, lambda red=red: build(2, ('GaussianErrorModel',), None, red)))
+    configs.append(('PopulationPredictiveModel(ReducedMechanisticModel(toy 2 par) nothing fixed + Gaussian error, P+G+L)', lambda: build(2, ('GaussianErrorModel',), ('P', 'G', 'L'), 'nothing fixed')))
 
     def is_ind(pm):
         return type(pm) is real.PredictiveModel
@@ -876,6 +911,9 @@ def controller(rec):
                 return 'count-names', 'get_n_parameters() = %s, %d names %s' % (n, len(names), list(names))
             if len(set(names)) != n:
                 return 'unique', 'names are not distinct: %s' % (list(names),)
+            r = mech_inv(c._mechanistic_model)
+            if r:
+                return r
             nb = c.get_n_parameters(exclude_pop_model=True)
             if len(c.get_parameter_names(exclude_pop_model=True)) != nb:
                 return 'count-names', 'get_n_parameters(exclude_pop_model=True) = %s, names %s' % (nb, c.get_parameter_names(exclude_pop_model=True))
@@ -927,7 +965,9 @@ def controller(rec):
         ('set_log_prior', lambda c: True, quiet(set_prior)),
     ]
     q = 'chi._problems.ProblemModellingController.'
-    run_family(rec, 'controller', [('ProblemModellingController(toy 2 par, Gaussian error)', build)], ops, inv,
+    def build_reduced():
+        return real.ProblemModellingController(reduced_toy(real, 2, 1), [real.GaussianErrorModel()])
+    run_family(rec, 'controller', [('ProblemModellingController(toy 2 par, Gaussian error)', build), ('ProblemModellingController(ReducedMechanisticModel(toy 2 par) with nothing fixed, Gaussian error)', build_reduced)], ops, inv,
                [q + f for f in ('set_data', 'set_population_model', 'fix_parameters', 'set_log_prior', 'get_n_parameters', 'get_parameter_names', 'get_log_posterior')],
                ['count-names', 'unique', 'order', 'accepts', 'gradient'], ['count-names', 'unique', 'order'], extra_depth=1)
 
